@@ -265,10 +265,19 @@ def zoo_db(path, page_size, rnd, n=120):
     con.execute("CREATE INDEX z13x ON z13(d COLLATE NOCASE, b, a COLLATE BINARY)")
     con.execute("CREATE TABLE z14(a TEXT COLLATE NOCASE, b TEXT, c, PRIMARY KEY(a, b)) WITHOUT ROWID")
     con.execute("CREATE INDEX z14c ON z14(c, b)")
+    # a column that is PRIMARY KEY and UNIQUE at once (one automatic index), followed by further UNIQUE constraints
+    con.execute("CREATE TABLE z15(a TEXT PRIMARY KEY UNIQUE, b UNIQUE, c, UNIQUE(c, a))")
+    con.execute("CREATE TABLE z16(a TEXT PRIMARY KEY UNIQUE, b UNIQUE, c) WITHOUT ROWID")
+    # a table-level PRIMARY KEY that repeats an earlier UNIQUE constraint, with another UNIQUE after it
+    con.execute("CREATE TABLE z17(a TEXT UNIQUE, b TEXT, c, PRIMARY KEY(a), UNIQUE(b))")
+    npool = TEXTPOOL[:12] + ["z", "Z", "zz", "ZZ", "Zz", "azure", "AZURE", "cRaZy", "crazy", "[", "`", "@", "{"]
     con.execute("BEGIN")
     for i in range(n):
-        con.execute("INSERT INTO z13 VALUES(?,?,?,?)", (rnd.choice(TEXTPOOL[:12]), rnd.choice(TEXTPOOL[:12]), rnd.choice(TEXTPOOL[:12]), rnd.choice(TEXTPOOL[:12])))
-        con.execute("INSERT OR IGNORE INTO z14 VALUES(?,?,?)", (rnd.choice(TEXTPOOL[:12]), rnd.choice(TEXTPOOL[:12]), i % 3))
+        con.execute("INSERT INTO z13 VALUES(?,?,?,?)", (rnd.choice(npool), rnd.choice(npool), rnd.choice(npool), rnd.choice(npool)))
+        con.execute("INSERT OR IGNORE INTO z14 VALUES(?,?,?)", (rnd.choice(npool), rnd.choice(npool), i % 3))
+        con.execute("INSERT OR IGNORE INTO z15 VALUES(?,?,?)", ("k%03d" % (i * 7 % 101), i * 3, i % 11))
+        con.execute("INSERT OR IGNORE INTO z16 VALUES(?,?,?)", (rnd.choice(npool) + str(i % 13), i * 5 - 40, i % 4))
+        con.execute("INSERT OR IGNORE INTO z17 VALUES(?,?,?)", ("a%03d" % (i * 5 % 97), "b%03d" % (i * 11 % 89), i % 6))
         con.execute("INSERT OR IGNORE INTO Z9 VALUES(?,?,?,?)", (rnd.choice(TEXTPOOL) + str(i % 7), i, i // 3, rnd.choice([None, i % 5, "d"])))
         con.execute("INSERT OR IGNORE INTO z10 VALUES(?,?)", (rnd.choice(TEXTPOOL) + str(i), i % 6))
         con.execute("INSERT OR IGNORE INTO Z12 VALUES(?,?,?)", (i * 3 - 20, rnd.choice(TEXTPOOL) + str(i), i % 4))
